@@ -49,8 +49,14 @@ class Inst:
 
     @property
     def origin(self):
-        """source function this instruction textually belongs to"""
-        return self.d.get("sp") or self.fn.name
+        """source function this instruction textually belongs to. A helper that is not in the rule vocabulary (freshly extracted / renamed and therefore
+        folded into its callers, see build.VOCAB) is transparent: its instructions belong to the function they were folded into."""
+        sp = self.d.get("sp")
+        if sp and sp != self.fn.name:
+            from . import build as _b
+            if not _b.known_function(sp):
+                return self.fn.name
+        return sp or self.fn.name
 
     def where(self):
         s = "%s in %s" % (self.loc, self.fn.name)
